@@ -22,7 +22,7 @@ EXPLANATION = (
     "Lower::get/get_at/put_small the counter ledger is zero and nothing was consumed (failed calls are undone); "
     "R-UNDO-RANGE: a failed multi-word claim rolls back exactly what it took. R-TOGGLE-GUARD: bits are cleared only under "
     "`e & mask == mask` and set only under `e & mask == 0`. R-PUT-DISPATCH: Lower::put frees through the huge-entry CAS for "
-    "order >= HUGE_ORDER, splits only entries marked huge, and rejects when the counter says the block cannot be allocated."
+    "order >= HUGE_ORDER, splits only entries marked huge, and rejects when the counter says the block cannot be allocated. R-INIT-COVERAGE (shared with C06): free-all / allocate-all write every entry and bitfield consistently, so the first free of a frame meets the state the model assumes."
 )
 
 PUT = "<llfree::llfree::LLFree as llfree::Alloc>::put"
@@ -203,3 +203,6 @@ def run(rep, programs):
     multicas.check_undo_range(rep, prog, "R-UNDO-RANGE", lib.need_body)
     c01.r_toggle_guard(rep, prog)
     r_put_dispatch(rep, prog)
+    # the ownership model starts from the initial state: free-all / allocate-all mark every frame consistently in entries and bitfields
+    from props import c06
+    c06.r_init_coverage(rep, prog)
